@@ -29,6 +29,18 @@
 (*   CopyFromRawConn - after the hello the copier reads the raw socket,    *)
 (*                     bytes left in the buffered reader are dropped       *)
 (*                                                                         *)
+(* Three further NAMED deviations describe classes of defects the pinned   *)
+(* code does not have but a change could introduce (each must be caught):  *)
+(*   DropDataWithEOF - a Read that returns data TOGETHER with EOF (a TLS   *)
+(*                     record followed by close_notify; io.Reader allows   *)
+(*                     it for every reader) loses that data                *)
+(*   AbortOnError    - a copy direction that FAILS ends the tunnel at once *)
+(*                     although the other direction is still delivering    *)
+(*   ResetOnError    - after a failure the connections are reset: bytes    *)
+(*                     already queued for the healthy direction are gone   *)
+(* The design: a failed direction only ends itself; what the other side    *)
+(* sent before it finished cleanly still reaches its peer.                 *)
+(*                                                                         *)
 (* Scenarios are restricted to those a DIRECT tcp connection would carry   *)
 (* without a reset (a side closes completely only when nothing can still   *)
 (* be on its way to it); see WellPosed in Tunnel_MC.  For these a          *)
@@ -40,11 +52,15 @@ CONSTANTS
     Scenarios,         \* set of scenario records, see Tunnel_MC
     EndOnFirstEOF,     \* deviation (pinned code): TRUE
     CopyFromRawConn,   \* deviation (pinned code): TRUE
+    DropDataWithEOF,   \* deviation (defect class): data returned together with EOF is dropped
+    AbortOnError,      \* deviation (defect class): first failed direction ends the tunnel
+    ResetOnError,      \* deviation (defect class): connections are reset when the tunnel ended with an error
     PeekN              \* bytes the SNI path peeks before it knows the hello length
 
 EOFm  == 0             \* FIN marker inside the byte FIFOs (data bytes are >= 1)
 HDR   == 90            \* the PROXY protocol line, one token
 WS101 == 98            \* the upstream's "HTTP/1.1 101" response, one token
+RSTm  == 99            \* a reset: whatever was queued in front of it is gone (always alone in its FIFO)
 
 VARIABLES
     sc,                              \* the scenario (never changes)
@@ -72,7 +88,8 @@ Min(a, b) == IF a < b THEN a ELSE b
 \* number of data bytes in front of the first FIN marker
 LeadLen(q) == CHOOSE n \in 0..Len(q) : /\ \A j \in 1..n : q[j] # EOFm
                                        /\ (n = Len(q) \/ q[n+1] = EOFm)
-Idle == [pc |-> "read", buf |-> <<>>]
+Idle == [pc |-> "read", buf |-> <<>>, eof |-> FALSE]
+Cp(pc, buf, eof) == [pc |-> pc, buf |-> buf, eof |-> eof]
 
 \* what the scenario prescribes
 CSegs == sc.cseg
@@ -82,13 +99,18 @@ WsMerged == sc.kind = "ws" /\ sc.trig = 0 /\ sc.useg # <<>>
 USegs == IF sc.kind # "ws" THEN sc.useg
          ELSE IF WsMerged THEN <<(<<WS101>> \o sc.useg[1])>> \o Tail(sc.useg)
          ELSE <<(<<WS101>>)>> \o sc.useg
-UFree == IF sc.kind = "ws" /\ ~WsMerged THEN 1 ELSE 0     \* segments sent without waiting for the trigger
+\* segments sent without waiting for the trigger: the 101 response, and with trigger -2 ("when the
+\* client has gone") the first message, which the client sees before it leaves
+UFree == (IF sc.kind = "ws" /\ ~WsMerged THEN 1 ELSE 0) + (IF sc.trig = -2 THEN 1 ELSE 0)
+RECURSIVE FlatN(_, _)
+FlatN(ss, n) == IF n = 0 \/ ss = <<>> THEN <<>> ELSE Head(ss) \o FlatN(Tail(ss), n - 1)
 Hdr == IF sc.proxy = 1 THEN <<HDR>> ELSE <<>>
 ExpU == Hdr \o Flatten(CSegs)        \* what the upstream must have seen when everything is over
 ExpC == Flatten(USegs)               \* what the client must have seen
 
 UPayload == Len(uRecv) - Len(Hdr)
-UTriggered == IF sc.trig = -1 THEN uGotEOF ELSE UPayload >= sc.trig
+CAlive == cState \notin {"closed", "reset"}
+UTriggered == IF sc.trig = -1 THEN uGotEOF ELSE IF sc.trig = -2 THEN ~CAlive ELSE UPayload >= sc.trig
 \* a websocket client speaks only after it has the handshake response
 CGate == sc.kind = "ws" => cRecv # <<>>
 
@@ -111,15 +133,15 @@ CWrite == /\ cState = "open" /\ cIdx < Len(CSegs) /\ CGate
           /\ UNCHANGED <<sc, cState, cRecv, cGotEOF, ups, p2u, u2p, p2c, prx, firstFin>>
 
 \* after its last segment: half-close (keeps reading) or close completely
-CFin == /\ cState = "open" /\ cIdx = Len(CSegs) /\ CGate /\ sc.cmode \in {"half", "close"}
+CFin == /\ cState = "open" /\ cIdx = Len(CSegs) /\ CGate /\ sc.cmode \in {"half", "close", "abort"}
         /\ c2p' = IF ppc # "done" THEN Append(c2p, EOFm) ELSE c2p
-        /\ cState' = IF sc.cmode = "half" THEN "halfclosed" ELSE "closed"
+        /\ cState' = IF sc.cmode = "close" THEN "closed" ELSE "halfclosed"
         /\ p2c' = IF sc.cmode = "close" THEN <<>> ELSE p2c
         /\ firstFin' = IF firstFin = "none" THEN "c" ELSE firstFin
         /\ UNCHANGED <<sc, cIdx, cRecv, cGotEOF, ups, p2u, u2p, prx>>
 
-CRead == /\ cState # "closed" /\ ~cGotEOF /\ p2c # <<>>
-         /\ IF p2c[1] = EOFm
+CRead == /\ CAlive /\ ~cGotEOF /\ p2c # <<>>
+         /\ IF p2c[1] \in {EOFm, RSTm}
             THEN cGotEOF' = TRUE /\ cRecv' = cRecv /\ p2c' = Tail(p2c)
             ELSE LET n == LeadLen(p2c) IN
                  /\ cRecv' = cRecv \o SubSeq(p2c, 1, n)
@@ -128,12 +150,22 @@ CRead == /\ cState # "closed" /\ ~cGotEOF /\ p2c # <<>>
          /\ UNCHANGED <<sc, cIdx, cState, ups, c2p, p2u, u2p, prx, firstFin>>
 
 \* the peer (or the proxy) has finished: the client closes once it has written everything
-CCloseAfterEOF == /\ cGotEOF /\ cState # "closed" /\ cIdx = Len(CSegs)
+CCloseAfterEOF == /\ cGotEOF /\ CAlive /\ cIdx = Len(CSegs)
                   /\ c2p' = IF cState = "open" /\ ppc # "done" THEN Append(c2p, EOFm) ELSE c2p
                   /\ cState' = "closed"
                   /\ p2c' = <<>>
                   /\ firstFin' = IF firstFin = "none" THEN "c" ELSE firstFin
                   /\ UNCHANGED <<sc, cIdx, cRecv, cGotEOF, ups, p2u, u2p, prx>>
+
+\* cmode "abort": the client has sent everything and half-closed (all of it has been taken over by
+\* the proxy's side of the connection: c2p), has seen the upstream's first message, and now goes
+\* away without reading on: its connection is reset.  Nothing it sent is affected; what is sent TO
+\* it from now on fails.
+CAbort == /\ sc.cmode = "abort" /\ cState = "halfclosed"
+          /\ Len(cRecv) >= Len(FlatN(USegs, UFree))
+          /\ cState' = "reset"
+          /\ p2c' = <<>>
+          /\ UNCHANGED <<sc, cIdx, cRecv, cGotEOF, ups, c2p, p2u, u2p, prx, firstFin>>
 
 -----------------------------------------------------------------------------
 \* upstream (exists for the proxy only after Dial)
@@ -151,8 +183,10 @@ UFin == /\ uConn /\ uState = "open" /\ uIdx = Len(USegs) /\ UTriggered
         /\ firstFin' = IF firstFin = "none" THEN "u" ELSE firstFin
         /\ UNCHANGED <<sc, cli, uIdx, uRecv, uGotEOF, uConn, c2p, p2c, prx>>
 
+\* a slow upstream (uslow) reads only when it has written everything it has to write
 URead == /\ uConn /\ uState # "closed" /\ ~uGotEOF /\ p2u # <<>>
-         /\ IF p2u[1] = EOFm
+         /\ (sc.uslow = 1 => uIdx = Len(USegs))
+         /\ IF p2u[1] \in {EOFm, RSTm}
             THEN uGotEOF' = TRUE /\ uRecv' = uRecv /\ p2u' = Tail(p2u)
             ELSE LET n == LeadLen(p2u) IN
                  /\ uRecv' = uRecv \o SubSeq(p2u, 1, n)
@@ -214,35 +248,39 @@ ReplayHello == /\ ppc = "replay"
 \* websocket: one read of the upstream's handshake answer (whatever arrived with it) is relayed
 Ws101 == /\ ppc = "ws101" /\ u2p # <<>> /\ u2p[1] # EOFm
          /\ \E k \in 1..LeadLen(u2p) :
-               /\ p2c' = IF cState # "closed" THEN p2c \o SubSeq(u2p, 1, k) ELSE p2c
+               /\ p2c' = IF CAlive THEN p2c \o SubSeq(u2p, 1, k) ELSE p2c
                /\ u2p' = SubSeq(u2p, k + 1, Len(u2p))
          /\ ppc' = "copy"
          /\ UNCHANGED <<sc, cli, ups, c2p, p2u, bio, hbuf, cpCU, cpUC, inW, outW, firstFin>>
 
 -----------------------------------------------------------------------------
+\* a Read may return the last data together with the EOF that follows it (a TLS record and the
+\* close_notify behind it; any io.Reader may): e = TRUE
+WithEOF(q, k) == IF k = LeadLen(q) /\ k < Len(q) /\ q[k + 1] = EOFm THEN {FALSE, TRUE} ELSE {FALSE}
 \* copier client -> upstream
 UseBio == sc.kind = "sni" /\ ~CopyFromRawConn /\ bio # <<>>
 CURead == /\ ppc = "copy" /\ cpCU.pc = "read"
           /\ IF UseBio
-             THEN /\ \E k \in 1..Len(bio) : /\ cpCU' = [pc |-> "write", buf |-> SubSeq(bio, 1, k)]
+             THEN /\ \E k \in 1..Len(bio) : /\ cpCU' = Cp("write", SubSeq(bio, 1, k), FALSE)
                                             /\ bio' = SubSeq(bio, k + 1, Len(bio))
                   /\ c2p' = c2p
              ELSE /\ c2p # <<>>
                   /\ bio' = bio
                   /\ IF c2p[1] = EOFm
-                     THEN cpCU' = [pc |-> "eof", buf |-> <<>>] /\ c2p' = Tail(c2p)
-                     ELSE \E k \in 1..LeadLen(c2p) : /\ cpCU' = [pc |-> "write", buf |-> SubSeq(c2p, 1, k)]
-                                                     /\ c2p' = SubSeq(c2p, k + 1, Len(c2p))
+                     THEN cpCU' = Cp("eof", <<>>, FALSE) /\ c2p' = Tail(c2p)
+                     ELSE \E k \in 1..LeadLen(c2p) : \E e \in WithEOF(c2p, k) :
+                             /\ cpCU' = Cp("write", SubSeq(c2p, 1, k), e)
+                             /\ c2p' = SubSeq(c2p, k + (IF e THEN 2 ELSE 1), Len(c2p))
           /\ UNCHANGED <<sc, cli, ups, p2u, u2p, p2c, ppc, hbuf, cpUC, inW, outW, firstFin>>
 
 CUWrite == /\ ppc = "copy" /\ cpCU.pc = "write"
-           /\ p2u' = IF uState # "closed" THEN p2u \o cpCU.buf ELSE p2u
-           /\ cpCU' = Idle
+           /\ p2u' = IF uState # "closed" /\ ~(DropDataWithEOF /\ cpCU.eof) THEN p2u \o cpCU.buf ELSE p2u
+           /\ cpCU' = IF cpCU.eof THEN Cp("eof", <<>>, FALSE) ELSE Idle
            /\ UNCHANGED <<sc, cli, ups, c2p, u2p, p2c, ppc, bio, hbuf, cpUC, inW, outW, firstFin>>
 
 \* the client has finished: the design passes the FIN on and keeps the other direction alive
 CUEof == /\ ppc = "copy" /\ cpCU.pc = "eof"
-         /\ cpCU' = [pc |-> "done", buf |-> <<>>]
+         /\ cpCU' = Cp("done", <<>>, FALSE)
          /\ IF EndOnFirstEOF
             THEN UNCHANGED <<p2u, outW>>
             ELSE /\ p2u' = IF ~outW /\ uState # "closed" THEN Append(p2u, EOFm) ELSE p2u
@@ -252,40 +290,50 @@ CUEof == /\ ppc = "copy" /\ cpCU.pc = "eof"
 \* copier upstream -> client
 UCRead == /\ ppc = "copy" /\ cpUC.pc = "read" /\ u2p # <<>>
           /\ IF u2p[1] = EOFm
-             THEN cpUC' = [pc |-> "eof", buf |-> <<>>] /\ u2p' = Tail(u2p)
-             ELSE \E k \in 1..LeadLen(u2p) : /\ cpUC' = [pc |-> "write", buf |-> SubSeq(u2p, 1, k)]
-                                             /\ u2p' = SubSeq(u2p, k + 1, Len(u2p))
+             THEN cpUC' = Cp("eof", <<>>, FALSE) /\ u2p' = Tail(u2p)
+             ELSE \E k \in 1..LeadLen(u2p) : \E e \in WithEOF(u2p, k) :
+                     /\ cpUC' = Cp("write", SubSeq(u2p, 1, k), e)
+                     /\ u2p' = SubSeq(u2p, k + (IF e THEN 2 ELSE 1), Len(u2p))
           /\ UNCHANGED <<sc, cli, ups, c2p, p2u, p2c, ppc, bio, hbuf, cpCU, inW, outW, firstFin>>
 
+\* writing to a connection that has been reset fails: this direction is over (the design: only this one)
 UCWrite == /\ ppc = "copy" /\ cpUC.pc = "write"
-           /\ p2c' = IF cState # "closed" THEN p2c \o cpUC.buf ELSE p2c
-           /\ cpUC' = Idle
+           /\ p2c' = IF CAlive /\ ~(DropDataWithEOF /\ cpUC.eof) THEN p2c \o cpUC.buf ELSE p2c
+           /\ cpUC' = IF cState = "reset" THEN Cp("failed", <<>>, FALSE)
+                      ELSE IF cpUC.eof THEN Cp("eof", <<>>, FALSE) ELSE Idle
            /\ UNCHANGED <<sc, cli, ups, c2p, p2u, u2p, ppc, bio, hbuf, cpCU, inW, outW, firstFin>>
 
 UCEof == /\ ppc = "copy" /\ cpUC.pc = "eof"
-         /\ cpUC' = [pc |-> "done", buf |-> <<>>]
+         /\ cpUC' = Cp("done", <<>>, FALSE)
          /\ IF EndOnFirstEOF
             THEN UNCHANGED <<p2c, inW>>
-            ELSE /\ p2c' = IF ~inW /\ cState # "closed" THEN Append(p2c, EOFm) ELSE p2c
+            ELSE /\ p2c' = IF ~inW /\ CAlive THEN Append(p2c, EOFm) ELSE p2c
                  /\ inW' = TRUE
          /\ UNCHANGED <<sc, cli, ups, c2p, p2u, u2p, ppc, bio, hbuf, cpCU, outW, firstFin>>
 
 \* the main routine returns and closes both connections; whatever a copier still holds,
 \* and whatever is unread in the proxy's receive buffers, is gone
+Over(cp) == cp.pc \in {"done", "failed"}
+Failed == cpCU.pc = "failed" \/ cpUC.pc = "failed"
 Finish == /\ ppc = "copy"
-          /\ IF EndOnFirstEOF THEN cpCU.pc = "done" \/ cpUC.pc = "done"
-                              ELSE cpCU.pc = "done" /\ cpUC.pc = "done"
+          /\ IF EndOnFirstEOF THEN Over(cpCU) \/ Over(cpUC)
+                              ELSE (Over(cpCU) /\ Over(cpUC)) \/ (AbortOnError /\ Failed)
           /\ ppc' = "done"
-          /\ p2u' = IF ~outW /\ uState # "closed" THEN Append(p2u, EOFm) ELSE p2u
-          /\ p2c' = IF ~inW /\ cState # "closed" THEN Append(p2c, EOFm) ELSE p2c
+          \* a normal close: what is queued is still delivered, then the FIN; a reset throws it away
+          /\ p2u' = IF uState = "closed" THEN p2u
+                     ELSE IF ResetOnError /\ Failed THEN <<RSTm>>
+                     ELSE IF ~outW THEN Append(p2u, EOFm) ELSE p2u
+          /\ p2c' = IF ~CAlive THEN p2c
+                     ELSE IF ResetOnError /\ Failed THEN <<RSTm>>
+                     ELSE IF ~inW THEN Append(p2c, EOFm) ELSE p2c
           /\ c2p' = <<>> /\ u2p' = <<>>
           /\ inW' = TRUE /\ outW' = TRUE
           /\ UNCHANGED <<sc, cli, ups, bio, hbuf, cpCU, cpUC, firstFin>>
 
 -----------------------------------------------------------------------------
-Terminated == ppc = "done" /\ cState = "closed" /\ uState = "closed"
+Terminated == ppc = "done" /\ ~CAlive /\ uState = "closed"
 
-Next == \/ CWrite \/ CFin \/ CRead \/ CCloseAfterEOF
+Next == \/ CWrite \/ CFin \/ CRead \/ CCloseAfterEOF \/ CAbort
         \/ UWrite \/ UFin \/ URead \/ UCloseAfterEOF
         \/ Peek \/ ReadHello \/ Dial \/ ProxyHdr \/ ReplayHello \/ Ws101
         \/ CURead \/ CUWrite \/ CUEof \/ UCRead \/ UCWrite \/ UCEof \/ Finish
@@ -305,5 +353,5 @@ HalfCloseGetsReply == (sc.cmode = "half" /\ cGotEOF) => cRecv = ExpC
 \* "every byte one side sends is delivered to the other side": on the scenarios a direct
 \* connection carries completely, so does the tunnel
 Transparent == Terminated => /\ uRecv = ExpU
-                             /\ (sc.cmode # "close" => cRecv = ExpC)
+                             /\ (sc.cmode \notin {"close", "abort"} => cRecv = ExpC)
 =============================================================================
